@@ -63,6 +63,10 @@ def detect(d, tier="quick", props=None):
         print("refusing: /repo has uncommitted changes:\n" + o)
         return None
     out = {}
+    # the checks rewrite evidence/<id>.json; what they write about a changed tree must not replace
+    # the evidence of the unchanged one
+    evdir = os.path.join(VERIF, "evidence")
+    saved = {f: open(os.path.join(evdir, f)).read() for f in os.listdir(evdir) if f.endswith(".json")}
     try:
         rc, o = sh("git -C %s apply %s/patch.diff" % (REPO, d))
         if rc != 0:
@@ -74,6 +78,8 @@ def detect(d, tier="quick", props=None):
             out[p] = {"rc": rc, "lines": lines, "wall": round(time.time() - t0, 1)}
     finally:
         sh("git -C %s checkout -- . && git -C %s clean -fdq" % (REPO, REPO))
+        for f, txt in saved.items():
+            open(os.path.join(evdir, f), "w").write(txt)
     return out
 
 
